@@ -15,7 +15,7 @@ for p in props:
     pid = p["id"]
     path = os.path.join(VERIF, "harness", "checks", pid.lower() + ".py")
     if not os.path.exists(path):
-        na.append({"property_id": pid, "reason": "check not built yet (work in progress; runtime monitoring applies, see DESIGN.md section 4)"})
+        na.append({"property_id": pid, "reason": "not claimed: the runtime monitor designed for it (DESIGN.md section 4) was not built in the time available; no other technique was substituted"})
         continue
     mod = importlib.import_module(f"harness.checks.{pid.lower()}")
     if getattr(mod, "NOT_CLAIMED", None):
